@@ -29,8 +29,8 @@ TECH["C08"]="rapid property-based testing of cross-language calls: emitted TypeS
 TEXT={
  "C12":("Generated-input search: every rule x placement cell of the documented catalogue is injected into rapid-drawn valid schemas and judged at the process boundary of the real plugins; the converse is checked on every base schema. Exploration, not proof: cells are enumerated, surroundings sampled.","§5 C12"),
  "C14":("Differential property test over rapid-drawn schemas: byte identity of same-named files, plus behavioural equality of server-only and client-only builds on generated values. Exploration.","§5 C14"),
- "C15":("Metamorphic property test: the same schema is generated under rerun / GOMAXPROCS / extra files / multi-package / permuted order / each file alone vs all files together / parameter spelling variations, outputs must be byte-identical. Map-order nondeterminism is sampled with fresh processes. Exploration.","§5 C15"),
- "C16":("Generated degenerate descriptor sets (cycles, depth, width, long names, WKTs, empty services, missing go_package) x parameters; each plugin process must answer within 20 s / 2 GiB without panic. Bounded observation of termination, not a liveness proof.","§5 C16"),
+ "C15":("Metamorphic property test: the same schema is generated under rerun / GOMAXPROCS / extra files / multi-package / permuted order / each file alone vs all files together / parameter spelling variations, outputs must be byte-identical, and no output file may come from two different single-file runs (a merely imported file contributes no output). Map-order nondeterminism is sampled with fresh processes. Exploration.","§5 C15"),
+ "C16":("Generated degenerate descriptor sets (cycles, depth, width, long names, WKTs, empty services, missing go_package, odd identifiers; one in two with a misused annotation, also on RPC body messages) x parameters incl. malformed strings; each plugin process must answer within 20 s / 2 GiB without panic. Bounded observation of termination, not a liveness proof.","§5 C16"),
 }
 TEXT.update({
  "C01":("Batches of rapid-drawn schemas are compiled and linked with a generic engine; for every RPC rapid draws request/response values (reserved URL characters, extremes, presence states) and a content type, the generated client calls the generated server, and request/response equality is checked. Exploration with shrinking of values; schemas are sampled.","§5 C01"),
@@ -42,7 +42,7 @@ TEXT["C02"]=("For every RPC with URL-bound fields rapid draws request lines (val
 TEXT["C09"]=("For every RPC with declared headers rapid draws header value sets (absent, empty, must-accept, must-reject, grey per type/format) and body validity; dispatch / 400-with-one-violation-per-offender is judged by a reference validator H. Exploration with shrinking.","§5 C09")
 TEXT["C10"]=("rapid draws an error source, a hook behaviour and a content type per call; status, headers, body (decoded in the request's content type) and the Go client's error value are compared with the documented contract; violation paths come from running the reference validator on the same request. Exploration.","§5 C10")
 TEXT["C11"]=("Valid model-encoded bodies are mutated (wrong type per field at depth, truncation, trailing data, top-level scalars, deep nesting, invalid UTF-8, duplicate keys, random and truncated wire data) under many content types; server verdicts must be 200 or a well-formed 400 and invalid-in-every-form bodies are never dispatched. The Go client is fed arbitrary status/content-type/body combinations. Exploration; bytes-level coverage guidance is not used.","§5 C11")
-TEXT["C17"]=("Random multisets of 10-80 calls over all routes run at parallelism 1-32 through shared generated clients and one shared generated server in a -race build; each call's result is compared with the same call issued alone. Schedules are sampled, not enumerated: the weakest claim of the set.","§5 C17")
+TEXT["C17"]=("Random multisets of 10-80 calls over all routes run at parallelism 1-32 through shared generated clients and one shared generated server in a -race build; each call's result is compared with the same call issued alone; a second group runs the emitted mock implementation behind the generated server under concurrent calls (status as alone, no race report). Schedules are sampled, not enumerated: the weakest claim of the set.","§5 C17")
 TEXT["C20"]=("Schemas are generated with generate_mock=true; the package must build and vet, the mock-backed generated server must answer valid requests with 200 and a body that decodes to the response type in its documented JSON form, and fields with examples must hold a parsable example. Exploration on the sub-domain the mock generator compiles for; the rest is pinned as known findings.","§5 C20")
 TEXT["C18"]=("Every emitted document of rapid-drawn schemas is parsed with parsers the plugin does not use and checked for the listed structural invariants under all four format settings; YAML and JSON renderings are compared as trees. Exploration.","§5 C18")
 TEXT["C19"]=("For each rule-carrying field probes at and around every bound are encoded with the reference model and judged both by the reference rule semantics and by jsonschema against the published property schema; any disagreement is a violation. Exploration with boundary-directed probes.","§5 C19")
